@@ -953,11 +953,18 @@ mod questionable {
 }
 
 mod matrix;
+mod audit;
+
+/// Declarations that are executed only through the plan of a recorded finding.
+pub fn plan_only() -> Vec<ArbDecl> {
+    audit::registry_plan_only()
+}
 
 pub fn all() -> Vec<ArbDecl> {
     let mut v = registry();
     v.extend(matrix::registry_matrix());
     v.extend(registry_generic());
+    v.extend(audit::registry_audit());
     #[cfg(feature = "questionable")]
     v.extend(questionable::registry_questionable());
     v
